@@ -8,6 +8,8 @@ CONSTANTS
   RulesKey = "item"
   IdsIdentifyContent = FALSE
   IncOf <- MCIncOf
+  StatusInc = 0
+  LocalNeedsIncarnationMatch = FALSE
   KeepHigherIncarnation = FALSE
   ReuseUnattested = FALSE
   ReadBackFailOpen = FALSE
